@@ -13,12 +13,12 @@
 package main
 
 import (
-	"net"
 	"bytes"
 	"encoding/json"
 	"fmt"
 	"io"
 	"math"
+	"net"
 	"net/http"
 	"net/url"
 	"os"
@@ -59,6 +59,7 @@ func pickPorts() {
 		}
 	}
 }
+
 var httpc = &http.Client{Timeout: 60 * time.Second}
 
 func logf(f string, a ...any) { fmt.Fprintf(os.Stderr, "c08: "+f+"\n", a...) }
@@ -498,12 +499,15 @@ type Features struct {
 	// CountNullInRow: some pre-fill row has a null cell in a count() column (and a value in another column)
 	CountNullInRow bool `json:"count_null_in_row"`
 	// NSeries: series passing the tag tests of the query
-	NSeries int    `json:"nseries"`
+	NSeries int `json:"nseries"`
 	// NullAggField: aggregate query: some stored row inside the time range, of a series passing the tag tests, has no
 	// value for one of the aggregated fields (the store reads such rows and drops them piece by piece)
-	NullAggField bool   `json:"null_agg_field"`
-	HasTie       bool   `json:"has_tie"` // plain selection: two rows of one group share a timestamp
-	Layout  string `json:"layout"`  // inorder | ooo (how the data set was written)
+	NullAggField bool `json:"null_agg_field"`
+	// UnknownBoolEqFalse: the predicate tests `f = false` for a boolean field f that no row of the data set has a value
+	// for (the field does not exist in the measurement)
+	UnknownBoolEqFalse bool   `json:"unknown_bool_eq_false"`
+	HasTie             bool   `json:"has_tie"` // plain selection: two rows of one group share a timestamp
+	Layout             string `json:"layout"`  // inorder | ooo (how the data set was written)
 }
 
 func tagOnly(p *Pred) bool {
@@ -535,6 +539,30 @@ func evalTagPart(p *Pred, s *Series) bool {
 	return evalPred(p, s, &Row{V: make([]*int64, len(fieldNames))})
 }
 
+func fieldExists(ds *Dataset, f int) bool {
+	for i := range ds.Series {
+		for j := range ds.Series[i].Rows {
+			if ds.Series[i].Rows[j].V[f] != nil {
+				return true
+			}
+		}
+	}
+	return false
+}
+
+func unknownBoolEqFalse(p *Pred, ds *Dataset) bool {
+	if p == nil {
+		return false
+	}
+	switch p.Op {
+	case "and", "or":
+		return unknownBoolEqFalse(p.A, ds) || unknownBoolEqFalse(p.B, ds)
+	case "field":
+		return fieldKinds[p.K] == KBool && p.C == "eq" && p.V == 0 && !fieldExists(ds, p.K)
+	}
+	return false
+}
+
 func features(ds *Dataset, q *Query) Features {
 	var f Features
 	qa := *q
@@ -560,6 +588,7 @@ func features(ds *Dataset, q *Query) Features {
 	if ds.InOrder {
 		f.Layout = "inorder"
 	}
+	f.UnknownBoolEqFalse = unknownBoolEqFalse(q.Pred, ds)
 	if q.Kind == "agg" {
 		lo, hi := q.bounds()
 		for i := range ds.Series {
